@@ -12,7 +12,7 @@ use fallible_iterator::FallibleIterator;
 use itertools::Itertools;
 use regex::Regex;
 
-use fclones::config::{Command, Config, DedupeConfig, GroupConfig, Parallelism};
+use fclones::config::{canonical_root, Command, Config, DedupeConfig, GroupConfig, Parallelism};
 use fclones::log::{Log, LogExt, ProgressBarLength, StdLog};
 use fclones::progress::{NoProgressBar, ProgressTracker};
 use fclones::report::{open_report, ReportHeader};
@@ -175,6 +175,17 @@ pub fn run_dedupe(op: DedupeOp, config: DedupeConfig, log: &dyn Log) -> Result<(
             dedupe_config.isolated_roots = c.root_paths();
         }
     }
+
+    // The roots given on the command line must be in the same form as the reported paths,
+    // otherwise no path would be found to be under them.
+    let cwd = Arc::new(fclones::Path::from(
+        std::env::current_dir().unwrap_or_default(),
+    ));
+    dedupe_config.isolated_roots = dedupe_config
+        .isolated_roots
+        .iter()
+        .map(|p| canonical_root(&cwd.resolve(p)))
+        .collect();
 
     if dedupe_config.rf_over.is_none() {
         return Err(Error::from(
